@@ -43,7 +43,9 @@ type vbSchemaAttrs struct {
 	addResS, addResE   int
 	addEResS, addEResE int
 	addResName         string
-	addFClass          int
+	// name of the field\'s synthetic oneof after the additions (the compiler renames it when "_<field>" gets taken)
+	addSynName string
+	addFClass  int
 }
 
 // vbNondetSchemaAttrs: concrete defaults everywhere except the focused attribute group, which is symbolic
@@ -113,6 +115,7 @@ func vbNondetAdditions(a *vbSchemaAttrs) {
 	a.addResS, a.addResE = 20, 30
 	a.addEResS, a.addEResE = -3, -1
 	a.addResName = vbNondetLetter()
+	a.addSynName = "X_" + vbNondetLetter()
 }
 
 type vbSchema struct {
@@ -167,7 +170,15 @@ func vbBuildSchema(a *vbSchemaAttrs, additions bool) *vbSchema {
 	fld := vbMkField(a.fNum, a.fName, a.fJSON, a.fKind, a.fDelimited, a.fClass, a.fMapEntry, m, f)
 	fld.jsType = descriptorpb.FieldOptions_JSType(a.fJSType)
 	if a.fInOneof {
-		o := &vbOneof{name: "o", synthetic: a.fSynthetic}
+		o := &vbOneof{name: "o", synthetic: a.fSynthetic, fields: []bufprotosource.Field{fld}}
+		if a.fSynthetic {
+			// proto3 optional: the compiler-generated oneof is "_<field>", or another free name when an added field
+			// takes that one
+			o.name = "_" + a.fName
+			if additions {
+				o.name = a.addSynName
+			}
+		}
 		fld.oneof = o
 		fld.proto3Optional = a.fSynthetic
 		m.oneofs = append(m.oneofs, o)
@@ -198,6 +209,7 @@ func vbBuildSchema(a *vbSchemaAttrs, additions bool) *vbSchema {
 		f2 := vbMkField(a.addFNum, a.addFName, a.addFName, 5, false, a.addFClass, false, m, f)
 		if a.addFClass <= 2 {
 			f2.oneof = o2
+			o2.fields = append(o2.fields, f2)
 		}
 		m.oneofs = append(m.oneofs, o2)
 		m.fields = append(m.fields, f2)
@@ -213,7 +225,7 @@ func vbBuildSchema(a *vbSchemaAttrs, additions bool) *vbSchema {
 		f.enums = append(f.enums, &vbEnum{name: "E2", nested: "E2", full: "p.E2", file: f})
 		f.exts = append(f.exts, &vField{name: "x2", nested: "x2", full: "p.x2", number: 1, extendee: ".p.M3", file: f})
 		f.svcs = append(f.svcs, &vbService{name: "S2", full: "p.S2", file: f})
-		g := &vFile{path: "b.proto", pkg: a.pkg, syntax: bufprotosource.SyntaxProto3}
+		g := &vFile{path: "b.proto", pkg: a.pkg, syntax: bufprotosource.SyntaxProto3, isImport: verifNondetBool()}
 		g.msgs = append(g.msgs, &vMsg{name: "M2", nested: "M2", full: "p.M2", file: g})
 		s.files = append(s.files, g)
 	}
